@@ -1,7 +1,7 @@
 CONSTANTS
   MaxEvents = 4
   Dev_KeepAliveAdvances = FALSE
-  Dev_RepublishNoAck = TRUE
+  Dev_RepublishNoAck = FALSE
   Dev_TransferEmptyNoResume = FALSE
 INIT Init
 NEXT Next
